@@ -115,7 +115,10 @@ class AbsField:
             def f(it_, instance, markers, wire, offset, length, offset_btl):
                 site = f'{it_.where()}#call[Field.{name}@L{getattr(node, "lineno", 0)}].pre'
                 run.oblige(f'{site}:element_inside_parent',
-                           And(zint(length) >= 0, zint(offset) >= 0, zint(offset) + zint(length) <= zint(wire.length)))
+                           And(zint(length) >= 0, zint(offset) >= 0, zint(offset) + zint(length) <= zint(wire.length)),
+                           regions={'declared_length_overruns_parent': And(zint(length) >= 0, zint(offset) >= 0,
+                                                                           zint(offset) <= zint(wire.length),
+                                                                           zint(offset) + zint(length) > zint(wire.length))})
                 run.oblige(f'{site}:offset_btl', And(zint(offset_btl) >= 0, zint(offset_btl) < zint(offset)))
                 tag = run.choose([('normal', True)] + [(e, True) for e in PARSE_RAISES], f'iface.{name}')
                 if tag != 'normal':
@@ -267,7 +270,8 @@ class model_encode(Contract):
 def _parse_inv(it, env, g):
     wire = env['wire']
     f = g['fields']
-    return {'offset_inside_wire': And(zint(env['offset']) >= 0, zint(env['offset']) <= zint(wire.length)),
+    return {'offset_inside_wire': (And(zint(env['offset']) >= 0, zint(env['offset']) <= zint(wire.length)),
+                                   {'declared_length_overruns_parent': zint(env['offset']) > zint(wire.length)}),
             'field_pos_in_range': And(zint(env['field_pos']) >= 0, zint(env['field_pos']) <= f.n)}
 
 
